@@ -19,6 +19,8 @@ META = {
             "(owner i, local_index i) by one application, that each element ends as the fold of exactly the updates addressed to it, that this "
             "is independent of the execution order when the updates commute (all operator families of array.hpp on uint64_t are proved to), "
             "that no trap or assertion is reachable on a legal index, and that for_all presents 0..len-1 once each with the stored value; "
+            "forAllMsgs_split/forAll_emit_is_fold/forAll_emit_some/harnessCallback_commutes: a for_all whose callbacks update the array they iterate "
+            "is one own modification per element plus the emitted updates, each applied exactly once in any order. "
             "resize_wf/resize_slots: an explicit resize leaves a well-formed array of the new length that keeps every rank's local prefix. "
             "The model is tied to array.ipp by running generated histories (commutative families from every rank at every block boundary; "
             "one non-commutative update per element between barriers; arbitrary sequences on one rank; copies) on the real code and "
@@ -32,6 +34,8 @@ RULE = ("generated: per communicator size R in 1..8 and length L (0, 1, R-1, R, 
         "a phase gives every touched element one commuting operator family (additive/multiplies/bit_and/bit_or/bit_xor/logical_and/logical_or) "
         "or a single set/visit, issues the updates from all ranks at the boundary indices of every block plus random ones, then barrier + for_all; "
         "R=1 additionally runs arbitrary non-commutative sequences; some cases copy the array and update original and copy separately; "
+        "for_all callbacks of both forms ((index,value&) and (value&)) that modify the value and issue async updates of one commuting family to "
+        "the SAME array — to the visited element, its neighbour and a far element — (kind=emit and sprinkled elsewhere; capacity 0 / 1 KB / default); "
         "explicit resize(new_len[, fill]) (new remainder len % R, len < R, shrinking, growing) is followed IMMEDIATELY, without a barrier, by "
         "updates from other ranks to every block of the new layout (kind=resize: 3-6 such steps, capacity 0, racer/late/burst schedules); "
         "a case = (R, L, layout, routing, buffer, schedule seed, script); non-trivial = at least one update")
@@ -140,6 +144,18 @@ def gen_case(rng, R, L, blocks, kind):
         nres += 1
         phase(every_owner=True)      # updates right away: no barrier after resize()
 
+    nemit = 0
+
+    def emit():
+        """for_all whose callback updates the array it iterates (both callback forms, one commuting family)"""
+        nonlocal nemit, nupd
+        n_el = lens[tgt[0]]
+        fam = rng.choice("pxaoe")
+        k = rng.randrange(1, 4)
+        ops.append(f"E {rng.choice('iiv')} {fam} {rand_val(rng)} {rng.randrange(0, 1000)} {k}")
+        nemit += 1
+        nupd += n_el * (1 + 3 * k)
+
     if kind == "seq":      # one rank: execution order = issue order, anything goes
         n = rng.randrange(4, 30)
         for _ in range(n):
@@ -157,7 +173,20 @@ def gen_case(rng, R, L, blocks, kind):
                 ops.append("B")
             if rng.random() < 0.1:
                 ops.append("F")
+            if rng.random() < 0.08:
+                emit()
         ops += ["B", "F", "V"]
+    elif kind == "emit":    # for_all callbacks that issue updates to the same array, interleaved with ordinary phases and resizes
+        ops.append("F")
+        for _ in range(rng.randrange(2, 6)):
+            k = rng.random()
+            if k < 0.6:
+                emit()
+            elif k < 0.8:
+                phase()
+            else:
+                resize()
+            ops.append("F")
     elif kind == "resize":  # explicit resizes, each followed immediately by updates from all ranks
         ops.append("F")
         phase()
@@ -168,8 +197,11 @@ def gen_case(rng, R, L, blocks, kind):
     else:
         ops.append("F")                     # fresh array: default everywhere
         for _ in range(rng.randrange(1, 4)):
-            if rng.random() < 0.25:
+            k = rng.random()
+            if k < 0.25:
                 resize()
+            elif k < 0.4:
+                emit()
             else:
                 phase()
             ops += (["B"] if rng.random() < 0.5 else []) + ["F"]     # for_all starts with its own barrier
@@ -191,7 +223,7 @@ def gen_case(rng, R, L, blocks, kind):
             "routing": rng.choice(ROUTES), "buffer_kb": (rng.choice([0, 0, 0, None]) if kind == "resize" else rng.choice([0, 0, 1, None])),
             "sim_seed": rng.randrange(1, 1 << 30),
             "policy": (rng.choice(["racer", "late", "burst", "uniform", "starve"]) if kind == "resize" else rng.choice(POLICIES)),
-            "kind": kind, "updates": nupd, "resizes": nres}
+            "kind": kind, "updates": nupd, "resizes": nres, "emits": nemit}
 
 
 def run_real(binary, case, sim_seed=None, policy=None):
@@ -212,7 +244,7 @@ def model_line(case):
             toks.append(f[0])
         elif f[0] == "T":
             toks.append("T:" + f[1])
-        elif f[0] == "Z":
+        elif f[0] in ("Z", "E"):
             toks.append(":".join(f))
         else:
             toks.append(":".join([f[0]] + f[2:]))     # the issuing rank is irrelevant to the model
@@ -251,6 +283,20 @@ def oracle_expected(case):
         elif f[0] == "Z":
             n = int(f[1]); fill = int(f[2]) if len(f) > 2 else case["dv"]
             arrs[cur] = [(v[:z] + [fill] * max(0, z - len(v))) for v, z in zip(arrs[cur], py_blocks(n, R)[1])]
+        elif f[0] == "E":
+            # every callback modifies its own element once (through the reference) and emits k rounds of three updates; all of one
+            # commuting family, so the result does not depend on when the emitted updates are executed
+            fam, cc, salt, k = f[2], int(f[3]), int(f[4]), int(f[5])
+            n = len(flat(arrs[cur]))
+            todo = []
+            for g in range(n):
+                todo.append((g, cc))
+                for j in range(k):
+                    x = (g * 3 + salt + j) % 97 + 1
+                    todo += [(g, x), ((g + 1) % n, x + 1), ((g * 7 + salt + j) % n, x + 2)]
+            for i, x in todo:
+                r, l = locate(arrs[cur], i)
+                arrs[cur][r][l] = py_eval(fam, i, arrs[cur][r][l], x)
         elif f[0] in ("F", "V"):
             dumps.append((f[0], flat(arrs[cur])))
         else:
@@ -336,7 +382,7 @@ def run(tier, seed, model_ok=True):
         for k in range(per_size):
             L = fixed[k] if k < len(fixed) else rng.choice([rng.randrange(0, R + 1), rng.randrange(R, 41), rng.randrange(1, 41)])
             L = max(L, 0)
-            kind = "seq" if R == 1 and k % 2 == 0 else ("copy" if k % 5 == 4 else ("resize" if k % 3 == 1 else "phases"))
+            kind = "seq" if R == 1 and k % 2 == 0 else ("copy" if k % 5 == 4 else ("resize" if k % 3 == 1 else ("emit" if k % 3 == 2 else "phases")))
             plan.append((R, L, kind))
     # block boundaries from the proved partition model
     tabs = {}
@@ -373,6 +419,7 @@ def run(tier, seed, model_ok=True):
         res.count("buffer_kb=" + str(case["buffer_kb"]))
         res.count("updates", case["updates"])
         res.count("resizes", case.get("resizes", 0))
+        res.count("emitting_for_alls", case.get("emits", 0))
         if sr.verdict == "ok":
             res.traces_validated += 1
         if case["ranks"] == 4 and case["len"] in (3, 5, 7) and case["updates"]:
